@@ -167,6 +167,20 @@ static Result judge_C07_tree(const Case& c) {
   unsigned char* ab2 = nullptr; size_t aw2 = cbor_serialize_alloc(t.item, &ab2, nullptr);
   if (!ab2 || aw2 != S) { if (ab2) va::vfree(ab2); return fail("cbor_serialize_alloc with buffer_size == NULL misbehaved"); }
   va::vfree(ab2);
+  // the same object measured again after it has changed: one more element in the root container (if it takes one)
+  if (cbor_isa_array(t.item) || cbor_isa_map(t.item)) {
+    cbor_item_t* e = cbor_build_uint8(7); bool grown = false;
+    if (e) { struct cbor_pair pr{e, e}; grown = cbor_isa_array(t.item) ? cbor_array_push(t.item, e) : cbor_map_add(t.item, pr); cbor_decref(&e); }
+    if (grown) {
+      vh::counters["remeasured_after_growth"]++;
+      size_t S2 = cbor_serialized_size(t.item);
+      ref::Bytes want2 = ref::encode(obs::observe(t.item).ast);
+      if (S2 != want2.size()) return fail("after one more element was added to the root, cbor_serialized_size = " + std::to_string(S2) + ", the encoding has " + std::to_string(want2.size()) + " bytes (it had " + std::to_string(S) + " before)");
+      uint8_t* b2 = (uint8_t*)malloc(S2); size_t w2 = cbor_serialize(t.item, b2, S2);
+      bool same2 = w2 == S2 && memcmp(b2, want2.data(), S2) == 0; free(b2);
+      if (!same2) return fail("after one more element was added to the root, cbor_serialize into a buffer of cbor_serialized_size bytes returned " + std::to_string(w2) + " / different bytes");
+    }
+  }
   cbor_decref(&t.item);
   if (va::g.live_blocks) { r.ok = false; r.msg = "blocks left allocated"; va::release_all(); }
   return r;
